@@ -96,6 +96,48 @@ def check_add_then(case):
     return v, 'ok' if not v else 'violated', True
 
 
+def check_two_res(case):
+    """Both resources selected (resources=None), their field lists differ, and the consumer either reads sequentially or
+    requests both resources before reading any row: every resource must be treated by its own field list."""
+    df = core.dataflows
+    f_other, f_t = ['a', 'x', 'k'], ['a', 'b', 'c', 'k']
+    rows_o = [{'a': 'oa%d' % i, 'x': 'ox%d' % i, 'k': 'k'} for i in range(2)]
+    rows_t = [{'a': 'ta%d' % i, 'b': 'tb%d' % i, 'c': 'tc%d' % i, 'k': 'k'} for i in range(2)]
+    st = mkstate([('other', [(f, 'string') for f in f_other], rows_o), ('t', [(f, 'string') for f in f_t], rows_t)])
+    what = case['what']
+    step, keep, ren = {
+        'select': (lambda: df.select_fields(['a', 'b', 'x'], resources=None), lambda f: f in ('a', 'b', 'x'), {}),
+        'select_regex': (lambda: df.select_fields(['[abx]'], resources=None), lambda f: f in ('a', 'b', 'x'), {}),
+        'delete': (lambda: df.delete_fields(['a', 'c', 'x'], resources=None), lambda f: f not in ('a', 'c', 'x'), {}),
+        'rename': (lambda: df.rename_fields({'b': 'b2', 'x': 'x2'}, resources=None), lambda f: True, {'b': 'b2', 'x': 'x2'}),
+    }[what]
+    label = '%s over two resources with different fields%s' % (what, ', consumed by a step that requests both resources first' if case.get('eager') else '')
+    links = [core.from_state(st, sequential=False), step()]
+    if case.get('eager'):
+        def eager(package):
+            yield package.pkg
+            held = list(package)
+            for r in held:
+                yield r
+        links.append(eager)
+    try:
+        out = core.materialise(*links, via='results_raw')
+    except core.CaseTimeout:
+        raise
+    except Exception as e:
+        return [('raises/two-res-%s' % what, '%s raises %s: %s' % (label, core.exc_sig(e), str(e)[:100]))], 'violated', True
+    v = []
+    for idx, (name, fields, rows) in enumerate((('other', f_other, rows_o), ('t', f_t, rows_t))):
+        exp_fields = [ren.get(f, f) for f in fields if keep(f)]
+        exp_rows = [{ren.get(f, f): r[f] for f in fields if keep(f)} for r in rows]
+        got_fields = [f['name'] for f in out.desc['resources'][idx]['schema']['fields']]
+        if got_fields != exp_fields:
+            v.append(('schema/two-res-%s' % what, '%s: %s has schema %r, expected %r' % (label, name, got_fields, exp_fields)))
+        elif enc_rows(out.rows[idx]) != enc_rows(exp_rows):
+            v.append(('values/two-res-%s' % what, '%s: %s has rows %r, expected %r' % (label, name, out.rows[idx], exp_rows)))
+    return v[:1], 'ok' if not v else 'violated', True
+
+
 def check_select(case):
     fields, req, regex = case['fields'], case['req'], case['regex']
     rows = table(fields)
@@ -347,6 +389,29 @@ def check_find_replace2(case):
     return v, 'ok' if not v else 'violated', True
 
 
+def check_find_replace_multi(case):
+    fields = ['s', 'u']
+    vals = case['vals']
+    rows = [{'s': v, 'u': 'keep'} for v in vals]
+    st, other = state(fields, rows)
+    spec = [{'name': 's', 'patterns': [{'find': 'a', 'replace': 'A'}]}, {'name': 'u', 'patterns': [{'find': 'keep', 'replace': 'kept'}]},
+            {'name': 's', 'patterns': [{'find': 'c$', 'replace': 'C'}, {'find': 'A', 'replace': 'AA'}]}]
+    label = 'find_replace with two entries for field s (a->A, then c$->C and A->AA) on %r' % (vals,)
+
+    def expected(v):
+        if v is None:
+            return None
+        for f, r_ in (('a', 'A'), ('c$', 'C'), ('A', 'AA')):
+            v = re.sub(f, r_, v)
+        return v
+    kind, out = run_step(st, core.dataflows.find_replace(copy.deepcopy(spec), resources='t'))
+    if kind == 'exc':
+        return [('raises/find_replace', '%s raises %s: %s' % (label, core.exc_sig(out), str(out)[:100]))], 'violated', True
+    exp_rows = [{'s': expected(r['s']), 'u': 'kept'} for r in rows]
+    v = base_checks(label, 'find_replace', out, other, fields, exp_rows)
+    return v, 'ok' if not v else 'violated', True
+
+
 def check_find_replace(case):
     fields = ['s', 'u']
     vals, pats = case['vals'], case['pats']
@@ -412,6 +477,12 @@ def cases(tier):
     for n in (1, 2):
         for vals in itertools.product(itertools.product(NUMV, repeat=2), repeat=n):
             out.append({'proc': 'computed_chain', 'vals': [list(v) for v in vals]})
+    for what in ('select', 'select_regex', 'delete', 'rename'):
+        for eager in (False, True):
+            out.append({'proc': 'two_res', 'what': what, 'eager': eager})
+    # the same field named by several entries of one find_replace: all of them apply, in order
+    for vals in itertools.product(texts, repeat=2):
+        out.append({'proc': 'find_replace_multi', 'vals': list(vals)})
     for how in ('add_field', 'add_field_opts', 'computed_dict', 'computed_str'):
         for then in ('rename', 'delete', 'set_type', 'select'):
             out.append({'proc': 'add_then', 'how': how, 'then': then})
